@@ -47,7 +47,14 @@ def v1_guard_in(r: R, qual: str, nodes_param: str):
 
 def _is_valid_probe(st) -> bool:
     """`ok = self.valid(nodes)`: computes the guard condition, not a query result"""
-    return isinstance(st, ast.Assign) and isinstance(st.value, ast.Call) and isinstance(st.value.func, ast.Attribute) and st.value.func.attr == "valid"
+    if isinstance(st, ast.Assign) and isinstance(st.value, ast.Call) and isinstance(st.value.func, ast.Attribute) and st.value.func.attr == "valid":
+        return True
+    # `nodes = tuple(nodes)` / `list(nodes)` before the guard: the argument made walkable more than once, no query result either
+    # (with or without a `try: ... except TypeError: pass` around it for the scalar form)
+    if isinstance(st, ast.Assign) and len(st.targets) == 1 and isinstance(st.targets[0], ast.Name) and isinstance(st.value, ast.Call) and isinstance(st.value.func, ast.Name) \
+            and st.value.func.id in ("tuple", "list") and len(st.value.args) == 1 and isinstance(st.value.args[0], ast.Name) and st.value.args[0].id == st.targets[0].id:
+        return True
+    return isinstance(st, ast.Pass)
 
 
 def v1(r: R, chk, prop: str = "C03"):
@@ -289,6 +296,9 @@ def run(m, chk):
     from .extra import walk_once
 
     walk_once(r, chk, ["heavy.ImmutableKnotVector.__add__", "heavy.ImmutableKnotVector.__sub__"], floor=2)
+    # the queries: `valid(nodes)` walks the argument, the answer is then computed from it — a one-pass iterable has to be
+    # materialised first (valid itself walks once: its second use of the argument is the scalar case of the except branch)
+    walk_once(r, chk, ["heavy.ImmutableKnotVector.span", "heavy.ImmutableKnotVector.mult", "heavy.ImmutableKnotVector.split"], floor=3, only=("nodes",))
     from .extra import limits_raw
 
     limits_raw(r, chk)
